@@ -111,10 +111,14 @@ Qed.
 
 (* Component(NEW): the component under its node, then its service under the component, then the interfaces under the
    service -- every failing step stops with a well-formed partial structure *)
-Lemma api_new_component sub parent name cid ctype model nsid ifids lab s s' r :
+Lemma reads_comp_precheck fl id gen : reads (comp_precheck fl id gen).
+Proof. unfold comp_precheck. destruct (fl_comp_precheck fl); auto 8 with reads. Qed.
+#[export] Hint Resolve reads_comp_precheck : reads.
+
+Lemma api_new_component fl sub parent name cid ctype model nsid ifids lab s s' r :
   WF (sg s) -> cls_is (sg s) parent KNode = true ->
   sibling_free (sg s) parent Has KComp (Some name) = true ->
-  new_component sub parent name cid ctype model nsid ifids lab s = (s', r) -> WF (sg s').
+  new_component fl sub parent name cid ctype model nsid ifids lab s = (s', r) -> WF (sg s').
 Proof.
   intros W Hp SF H. unfold new_component in H.
   peel H W. peel H W. peel H W.
@@ -128,7 +132,10 @@ Proof.
   (* the generation of the sub-structure only reads *)
   apply bind_reads in H;
     [| destruct ports; [apply reads_bind; [apply reads_guard | intro; apply reads_bind; [apply reads_mapM; intro; auto 8 with reads | intro; auto 8 with reads]] | apply reads_ret]].
-  destruct H as [[s2 [gen [Hgen [Hg H]]]] | [e [Hr Hg]]]; [| rewrite Hg; exact W].
+  destruct H as [[sG [gen [Hgen [HgG H]]]] | [e [Hr Hg]]]; [| rewrite Hg; exact W].
+  apply bind_reads in H; [| apply reads_comp_precheck].
+  destruct H as [[s2 [[] [_ [Hg' H]]]] | [e [Hr Hg']]]; [| rewrite Hg', HgG; exact W].
+  match type of W with WF (sg ?sc) => assert (Hg : sg s2 = sg sc) by congruence end. clear Hg' HgG.
   match type of W with WF (sg ?sc) => rename sc into s0 end.
   (* component + owner edge *)
   set (comp := mk a0 KComp (Some ctype') name lab) in *.
@@ -189,8 +196,8 @@ Proof.
 Qed.
 
 (* Node.add_component / add_storage *)
-Lemma api_node_add_component sub n name cid ctype model nsid ifids s s' r :
-  WF (sg s) -> node_add_component sub n name cid ctype model nsid ifids s = (s', r) -> WF (sg s').
+Lemma api_node_add_component fl sub n name cid ctype model nsid ifids s s' r :
+  WF (sg s) -> node_add_component fl sub n name cid ctype model nsid ifids s = (s', r) -> WF (sg s').
 Proof.
   intros W H. unfold node_add_component in H.
   apply bind_reads in H; [| unfold components_of; solve [auto 8 with reads]].
@@ -201,8 +208,8 @@ Proof.
   destruct (check_class_cls _ _ _ _ Fm Em) as [k [[<-|[]] Hk]].
   eapply api_new_component; [exact W | exact Hk | | exact H]. eapply name_in_sibling; eauto.
 Qed.
-Lemma api_node_add_storage sub n name cid s s' r :
-  WF (sg s) -> node_add_storage sub n name cid s = (s', r) -> WF (sg s').
+Lemma api_node_add_storage fl sub n name cid s s' r :
+  WF (sg s) -> node_add_storage fl sub n name cid s = (s', r) -> WF (sg s').
 Proof.
   intros W H. unfold node_add_storage in H. peel H W.
   apply bind_reads in H; [| unfold components_of; solve [auto 8 with reads]].
@@ -224,8 +231,8 @@ Proof. intro H. apply service_types_in_vocab. apply mem_str_In. exact H. Qed.
 Lemma reads_for_each_need l : reads (for_each l (need KCP)).
 Proof. apply reads_for_each. intro. apply reads_need. Qed.
 
-Lemma run_op_preserves sub fl hint o s s' r :
-  WF (sg s) -> op_pre (sg s) o = true -> run_op sub fl hint o s = (s', r) -> WF (sg s').
+Lemma run_op_preserves_basic sub fl hint o s s' r :
+  WF (sg s) -> op_pre_basic (sg s) o = true -> run_op sub fl hint o s = (s', r) -> WF (sg s').
 Proof.
   intros W P R. destruct o; simpl in P; try discriminate P; unfold run_op in R.
   - (* add_node *)
@@ -261,20 +268,3 @@ Proof.
     peel R W. eapply api_unset_property; eauto.
 Qed.
 
-Theorem step_preserves_partial sub fl g o drawn hint g' out :
-  WF g -> op_pre g o = true -> step sub fl g o drawn hint = (g', out) -> WF g'.
-Proof.
-  intros W P H. unfold step in H.
-  destruct (run_op sub fl hint o (mkSt g drawn)) as [s' [u|e]] eqn:R; inversion H; subst;
-    eapply (run_op_preserves sub fl hint o (mkSt g drawn)); eauto.
-Qed.
-
-Theorem histories_partial sub fl h : forall g, WF g -> pre_along sub fl g h = true -> WF (run_hist sub fl g h).
-Proof.
-  induction h as [|[[o dr] hi] h IH]; intros g W P; simpl in *; [exact W|].
-  apply andb_true_iff in P as [P1 P2]. apply IH; [|exact P2].
-  destruct (step sub fl g o dr hi) as [g' out] eqn:E. simpl. eapply step_preserves_partial; eauto.
-Qed.
-
-Lemma WF_empty : WF empty_graph.
-Proof. apply wf_b_reflect. reflexivity. Qed.
